@@ -4,6 +4,7 @@ from valve_common import *
 from vlib import *
 from quake_common import quake_specs
 from u2_common import u2_specs
+from gs_common import gs_specs
 
 ID = "C14"
 PROPS_FILE = "C14"
@@ -14,10 +15,10 @@ TRUSTED = [
     "Model/Dispatch.v is a hand-written model of games/query.rs and of the game_query_fn! wrappers; it is tied to the code by running, for every game of the table, the three generic entry points, the dedicated module and the protocol function with the definition's parameters under the same scripted server and comparing destination, request bytes and results (family 14); the generic path is also compared with the model's own run for Valve, Quake and Unreal 2 games",
     "the step from 'same call up to an unchecked, not special-cased app id' to 'same behaviour' (used by armareforger only) is covered by the correspondence, not by a theorem",
     "Eco and Minetest (HTTP through ureq) are outside the scripted transport: only the table-level statement covers them",
-    "server behaviours for GameSpy, Minecraft and the proprietary UDP protocols are silence and malformed replies until those protocols have reply generators (C03, C04, C07)",
+    "server behaviours for Minecraft and the proprietary UDP protocols are silence and malformed replies until those protocols have reply generators (C03, C07)",
 ]
 RULE = ("every entry of the definitions table x port omitted / given x timeout settings None / Some x server behaviours: for Valve games replies generated for the definition's engine (expected, dedicated and foreign app ids) and gather settings, "
-        "complete, truncated after each datagram, and silence; Quake and Unreal 2 games likewise from their reply generators; the other games silence and a malformed datagram; "
+        "complete, truncated after each datagram, and silence; Quake, Unreal 2 and GameSpy games likewise from their reply generators; the other games silence and a malformed datagram; "
         "non-trivial = at least one path obtained a response; distinct by case bytes")
 
 HAND = {"theship", "ffow", "jc2m", "savage2", "mindustry", "battalion1944", "minecraft", "minecraftjava", "minecraftbedrock",
@@ -76,6 +77,10 @@ def gen_cases(tier, rng):
             v = {"One": 1, "Two": 2, "Three": 3}[pr["Quake"]]
             seeds = [(rng.fork("q/%s/%d" % (g["id"], k)).next() % (1 << 48), v) for k in range(nseeds)]
             scripts[g["id"]] = [[s["dg"]] for s in quake_specs(seeds)]
+        if isinstance(pr, dict) and "Gamespy" in pr:
+            v = {"One": 1, "Two": 2, "Three": 3}[pr["Gamespy"]]
+            seeds = [rng.fork("gs/%s/%d" % (g["id"], k)).next() % (1 << 48) for k in range(nseeds)]
+            scripts[g["id"]] = [s["events"] for s in gs_specs(v, seeds) if s["fits"]]
         if pr == "Unreal2":
             seeds = [rng.fork("u/%s/%d" % (g["id"], k)).next() % (1 << 48) for k in range(nseeds)]
             scripts[g["id"]] = [s["events"] for s in u2_specs(seeds, gather=(1, 2))]
